@@ -9,8 +9,7 @@ import PyaModel.Core.Ops
    on a row (`agree`), the defect-including model of pyanalyze's verdict on a row (`modelDiag`) and
    the exception classes `D19_*`.
 -/
-namespace Pya
-namespace Ops
+namespace Pya.C19
 
 /-! ## 1. indexing -/
 
@@ -29,16 +28,6 @@ def expand {α : Type} : List (Bool × α) → List Nat → List α
   | (true, m) :: rest, n :: ns => List.replicate n m ++ expand rest ns
 
 def hasMany {α : Type} (ms : List (Bool × α)) : Bool := ms.any (·.1)
-
-/-- Number of non-variadic members after the last variadic one. -/
-def suffixLen {α : Type} (ms : List (Bool × α)) : Nat := (ms.reverse.takeWhile (!·.1)).length
-
-/-- **Exception class `negIdxVariadic`** (known finding): a negative literal index `key` into a
-sequence with a variadic member whose fixed suffix is long enough for the scanning loop to reach
-position `-key + 1` from the back — pyanalyze then returns the member two places before the right
-one (implementation.py:447, `index_from_back = -key.val + 1`). -/
-def D19_negIdxVariadic {α : Type} (ms : List (Bool × α)) (key : Int) : Bool :=
-  hasMany ms && decide (key < 0) && decide ((-key + 1).toNat < suffixLen ms)
 
 /-! ## 2. CPython's binary operator dispatch (dunder level) -/
 
@@ -242,5 +231,4 @@ def specMatches (x : Row) : Bool :=
    | .fromLeft => x.c == 0
    | .fromRight => x.c == 0)
 
-end Ops
-end Pya
+end Pya.C19
